@@ -3,6 +3,8 @@ package main
 import (
 	"fmt"
 	"os"
+
+	"github.com/0xrawsec/sod/zzverif/vrt"
 )
 
 func init() { drivers["SELFTEST"] = runSelfTest }
@@ -33,8 +35,41 @@ func runSelfTest(c *Ctx) {
 		c.Count("paths_replayed", 2)
 		c.Distinct("states", keys[0])
 	}
+	// schedules replay deterministically: same choice list => same event fingerprint and same results
+	if c.Shard == 0 {
+		progs := []Prog{
+			{Cfg: Cfg{}, Setup: []Op{{Op: "ins", V: 1, K: 0}}, Threads: [][]Call{{{Name: "all"}}, {{Name: "ins", V: 2, K: 3}}}},
+			{Cfg: Cfg{Async: 1}, Setup: []Op{{Op: "ins", V: 1, K: 0}, {Op: "ins", V: 2, K: 2}}, Threads: [][]Call{{{Name: "delall"}}, {{Name: "ins", V: 3, K: 4}, {Name: "count"}}}, Ticks: 2},
+			{Cfg: Cfg{Cache: true}, Setup: []Op{{Op: "ins", V: 1, K: 0}}, Cold: true, Threads: [][]Call{{{Name: "get", Slot: 0}}, {{Name: "collect", Field: "P", Cmp: ">=", Probe: 0}}}},
+		}
+		for _, prog := range progs {
+			n := 0
+			var last *ExecResult
+			exploreSchedules(2, 60, func(prefix []int) *vrt.Exec {
+				last = runProg(prog, prefix, 2, nil)
+				return last.X
+			}, func(x *vrt.Exec, choices []int) bool {
+				again := runProg(prog, choices, 2, nil)
+				if again.X.Finger != x.Finger || again.X.NPoints != x.NPoints || fmt.Sprint(histResults(again.Hist)) != fmt.Sprint(histResults(last.Hist)) {
+					panic(fmt.Sprintf("selftest: schedule %v of program %s does not replay deterministically", choices, jsonOf(prog)))
+				}
+				n++
+				return true
+			})
+			c.Count("schedules_replayed_twice", n)
+			c.Count("transitions", n)
+		}
+	}
 	selfTestExtra(c)
 	compareUntouched(c)
 	c.Sample(map[string]interface{}{"history": path})
 	c.Meta(map[string]interface{}{"rule": "engine self-tests"})
+}
+
+func histResults(h []CallRec) []string {
+	var out []string
+	for _, r := range h {
+		out = append(out, fmt.Sprintf("%d.%d:%s", r.Thread, r.Index, r.Res))
+	}
+	return out
 }
